@@ -555,6 +555,47 @@ func (u *Unit) evalSpecCall(env *SpecEnv, e *SExpr) Value {
 		// cell(T, q): the heap cell of element type T at absolute address q
 		t := u.elemOf(env, e.Args[0])
 		return Value{K: KNum, T: t, Term: Select(u.heap(env.st(), t), arg(1).Term)}
+	case "forallBuf":
+		// forallBuf(b, T, body): b ranges over all buffer objects of element type T
+		name := e.Args[0].Name
+		t := u.elemOf(env, e.Args[1])
+		bvx := &Term{Op: name + "?" + fmt.Sprint(u.nextBound()), Sort: SInt}
+		body := u.evalSpecBool(env.with(name, Value{K: KBuf, Elem: t, Term: bvx}), e.Args[2])
+		return boolV(Forall([]*Term{bvx}, body))
+	case "inPool":
+		p, b := arg(0), arg(1)
+		return boolV(Select(Select(u.comp(env.st(), "items", SArr(SInt, SArr(SInt, SBool))), p.Term), b.Term))
+	case "poolNewIs":
+		// the allocator captured by the New closure of pool p equals a
+		p, a := arg(0), arg(1)
+		var cs []*Term
+		for fname, f := range a.Fields {
+			if f.K == KInt {
+				cs = append(cs, Eq(Select(u.comp(env.st(), "pcap.a."+fname, arrII), p.Term), f.Term))
+			}
+		}
+		return boolV(And(cs...))
+	case "allocOK":
+		a := arg(0)
+		c, l, k := a.Fields["Channels"].Term, a.Fields["Length"].Term, a.Fields["Capacity"].Term
+		return boolV(And(Le(IntLit(0), c), Le(IntLit(0), l), Le(l, k), Le(u.specBI(c, IntLit(0), k), IntLit(maxSliceLen))))
+	case "pristine":
+		// pristine(b, a): b is indistinguishable from Alloc(a)
+		b, a := arg(0), arg(1)
+		c, l, k := a.Fields["Channels"].Term, a.Fields["Length"].Term, a.Fields["Capacity"].Term
+		d := u.bufData(env.st(), b)
+		q := boundVar("q?" + fmt.Sprint(u.nextBound()))
+		zero := u.zeroOf(b.Elem, true).Term
+		return boolV(And(u.wf(env.st(), b), Eq(u.bufCh(env.st(), b), c),
+			Eq(d.Len, u.specBI(c, IntLit(0), l)), Eq(d.Cap, u.specBI(c, IntLit(0), k)),
+			Forall([]*Term{q}, Imp(And(Le(IntLit(0), q), Lt(q, d.Cap)), Eq(Select(u.heap(env.st(), b.Elem), Add(d.Ptr, q)), zero)))))
+	case "disjointWindows":
+		a, b := arg(0), arg(1)
+		da, db := u.bufData(env.st(), a), u.bufData(env.st(), b)
+		return boolV(Or(Le(Add(da.Ptr, da.Cap), db.Ptr), Le(Add(db.Ptr, db.Cap), da.Ptr)))
+	case "freshPool":
+		p := arg(0)
+		return boolV(And(Ge(p.Term, u.comp(env.old, "pbrk", SInt)), Lt(p.Term, u.comp(env.cur, "pbrk", SInt))))
 	case "heapSameBelow":
 		// heapSameBelow(x): every cell allocated in the old state is unchanged
 		t := u.elemOf(env, e.Args[0])
